@@ -151,6 +151,9 @@ def gcm_case(draw, tier, algos=("fast", "network", "motifs"), max_leaf_stubs=Non
             mo["names"] = draw(st.sampled_from([f"t{j}", f"t{j}", NAME_POOL[j % len(NAME_POOL)] + f"#{j}"]))
             if j == 0 and draw(st.integers(0, 5)) == 5:
                 mo["names"] = draw(st.sampled_from(["", 0]))  # a topology label may be any value, falsy ones included
+            if j >= 1 and draw(st.integers(0, 4)) == 0:
+                # names are labels, nothing makes them distinct: this topology is called like the first one
+                mo["names"] = motifs[0]["names"]
             if mo["kind"] == "template" and draw(st.integers(0, 3)) == 3:
                 # a callback that omits degenerate (u,u) edges: its edge count varies from instance to instance
                 mo["drop_loops"] = True
@@ -400,6 +403,9 @@ def classes_of(case):
             cl.add("names_from_one_shot_iterator")
         if isinstance(m["names"], (list, tuple)) and len(set(m["names"])) > 1:
             cl.add("heterogeneous_names")
+    tn = [repr(m["names"]) for m in case["motifs"] if not isinstance(m["names"], (list, tuple))]
+    if len(set(tn)) < len(tn):
+        cl.add("two_topologies_share_a_name")
     return cl
 
 
